@@ -926,7 +926,7 @@ static int vi_change(int r1, int o1, int r2, int o2, int lnmode)
 	reg_put(vi_ybuf, region, lnmode);
 	free(region);
 	pref = lnmode ? vi_indents(lbuf_get(xb, r1)) : uc_sub(lbuf_get(xb, r1), 0, o1);
-	post = lnmode ? uc_dup("\n") : uc_sub(lbuf_get(xb, r2), o2, -1);
+	post = lnmode || !lbuf_get(xb, r2) ? uc_dup("\n") : uc_sub(lbuf_get(xb, r2), o2, -1);
 	xrow = r1;
 	vi_drawfix(r1, r2, 1, 1);
 	rep = vi_input(pref, post, &row, &off);
